@@ -1,6 +1,261 @@
-"""Engine A (Kani) driver — filled in below."""
+"""Engine A driver: Kani/CBMC proof harnesses over the compiled crate (C08 integer shape arithmetic, C18 generator)."""
+import json
+import os
+import re
+import shutil
+import subprocess
+import time
+from concurrent.futures import ThreadPoolExecutor
+
+import build
+
+KANI_DIR = os.path.join(build.VERIF, "kani")
+REJECT = "must have a square output"
+
+# name, tiers, timeout (s), expected library rejection allowed, what it claims
+HARNESSES = {
+    "C18": [
+        ("c18_generate_unit_all_states", "qt", 300, False, "generate(0,1) in [0,1] for every state < 2^31-1"),
+        ("c18_generate_any_seed", "qt", 300, False, "no overflow panic and values in range for every 64-bit seed (two calls)"),
+        ("c18_generate_minmax", "qt", 600, False, "generate(min,max) in [min,max] for every state and all finite min<=max with |.|<=1e6"),
+        ("c18_purity_one_step", "qt", 600, False, "two generators created from the same seed agree bit-for-bit on the first value, every state"),
+        ("c18_purity_two_steps_small_seeds", "qt", 900, False, "… and on the first two values for seeds < 2^16"),
+        ("c18_purity", "t", 3600, False, "two generators created from the same seed produce bit-identical sequences (2 steps), every state"),
+        ("c18_shuffle_len1", "qt", 300, False, "shuffle of 1 element: no panic, permutation, every state"),
+        ("c18_shuffle_len2", "qt", 600, False, "shuffle of 2 elements: no panic, permutation, every state"),
+        ("c18_shuffle_len3", "qt", 900, False, "shuffle of 3 elements: no panic, permutation, every state"),
+        ("c18_shuffle_len4", "t", 1800, False, "shuffle of 4 elements: no panic, permutation, every state"),
+        ("c18_shuffle_index_any_length", "qt", 600, False, "generate(0,len) in [0,len] for every state and every len <= 2^24 (the index argument of every shuffle step)"),
+        ("c18_tensor_random_single", "qt", 600, False, "Tensor::random(Single(2)) has the requested length and entries in [min,max] for an arbitrary clock"),
+        ("c18_tensor_random_triple", "qt", 600, False, "Tensor::random(Triple(1,1,2)): nesting and range for an arbitrary clock"),
+        ("c18_tensor_random_double", "t", 600, False, "Tensor::random(Double(2,1)): nesting and range for an arbitrary clock"),
+    ],
+    "C08": [
+        ("c08_conv_shape", "qt", 900, False, "Convolution::create announces the standard output shape for all ic<=3,f<=2,ih,iw<=64,k<=8,s<=4,p<=3,d<=3 whose effective kernel fits"),
+        ("c08_deconv_shape", "qt", 900, False, "Deconvolution::create announces (i-1)s+k-2p for all ih,iw<=64,k<=8,s<=4,p<=3"),
+        ("c08_pool_shape", "qt", 900, False, "Maxpool::create announces (i-k)/s+1 for all ih,iw<=64,k<=8,s<=4"),
+        ("c08_flat_accept_conv", "qt", 900, True, "Convolution::create(Single(n)), n<=4096: accepted => n=r*r read as 1xrxr"),
+        ("c08_flat_accept_deconv", "qt", 900, True, "Deconvolution::create(Single(n)), n<=4096: accepted => n=r*r read as 1xrxr"),
+        ("c08_flat_accept_pool", "qt", 900, True, "Maxpool::create(Single(n)), n<=4096: accepted => n=r*r read as 1xrxr"),
+        ("c08_square_accepted_conv", "qt", 900, False, "Convolution::create(Single(r*r)), r<=64 is accepted (no panic reachable)"),
+        ("c08_square_accepted_deconv", "qt", 900, False, "Deconvolution::create(Single(r*r)), r<=64 is accepted"),
+        ("c08_square_accepted_pool", "qt", 900, False, "Maxpool::create(Single(r*r)), r<=64 is accepted"),
+    ],
+}
+
+IGNORED_DESCRIPTIONS = ("NaN on ", "arithmetic overflow on floating-point")
+
+
+def target_dir():
+    return os.path.join(build.WORK, "target-kani")
+
+
+def kani_env():
+    env = dict(os.environ)
+    env["CARGO_NET_OFFLINE"] = "true"
+    env.pop("RUSTUP_TOOLCHAIN", None)
+    env.pop("RUSTFLAGS", None)
+    return env
+
+
+def parse(out):
+    """-> (verdict, seconds, failures[(description, location)], covers(sat, total), unwind_fail)"""
+    fails = []
+    for m in re.finditer(r"Check \d+: [^\n]*\n\s*- Status: (\w+)\n\s*- Description: \"(.*?)\"\n\s*- Location: ([^\n]*)", out, re.S):
+        st, desc, loc = m.group(1), m.group(2), m.group(3)
+        if st in ("FAILURE", "UNDETERMINED"):
+            fails.append((st, desc.strip(), loc.strip()))
+    v = re.search(r"VERIFICATION:- (\w+)", out)
+    t = re.search(r"Verification Time: ([0-9.]+)s", out)
+    c = re.search(r"\*\* (\d+) of (\d+) cover properties satisfied", out)
+    nchecks = re.search(r"\*\* (\d+) of (\d+) failed", out)
+    stubs = re.findall(r"- Stub: (.*)", out)
+    return {
+        "verdict": v.group(1) if v else None,
+        "seconds": float(t.group(1)) if t else None,
+        "fails": fails,
+        "covers": (int(c.group(1)), int(c.group(2))) if c else None,
+        "checks": int(nchecks.group(2)) if nchecks else None,
+        "stubs": stubs,
+    }
+
+
+def run_harness(name, timeout, extra=()):
+    cmd = ["cargo", "kani", "-Z", "stubbing", "--harness", name, "--target-dir", target_dir()] + list(extra)
+    t0 = time.time()
+    try:
+        p = subprocess.run(cmd, cwd=KANI_DIR, env=kani_env(), stdout=subprocess.PIPE, stderr=subprocess.STDOUT, text=True, timeout=timeout)
+        return p.returncode, p.stdout, time.time() - t0, False
+    except subprocess.TimeoutExpired as e:
+        out = e.stdout if isinstance(e.stdout, str) else (e.stdout.decode() if e.stdout else "")
+        subprocess.run(["pkill", "-f", "cbmc.*%s" % name], stdout=subprocess.DEVNULL, stderr=subprocess.DEVNULL)
+        return -1, out, time.time() - t0, True
+
+
+def playback_values(name, timeout):
+    """one list of integer values per failing check: [(check description, [values…])]"""
+    rc, out, dt, to = run_harness(name, timeout, extra=["-Z", "concrete-playback", "--concrete-playback=print"])
+    tests = []
+    for m in re.finditer(r"/// Check for `[^`]*`: \"(.*?)\"\n///\n.*?let concrete_vals: Vec<Vec<u8>> = vec!\[(.*?)\];", out, re.S):
+        desc = m.group(1)
+        vals = []
+        for vm in re.finditer(r"vec!\[([0-9, ]*)\]", m.group(2)):
+            bs = [int(x) for x in vm.group(1).replace(" ", "").split(",") if x]
+            vals.append(int.from_bytes(bytes(bs), "little"))
+        tests.append((desc, vals))
+    return tests
+
+
 def run(prop, tier, seed, here, findings, match_finding):
-    print("INCONCLUSIVE property=%s: kani driver not built yet" % prop)
-    return 2
+    t_start = time.time()
+    tl = "q" if tier == "quick" else "t"
+    hs = [h for h in HARNESSES[prop] if tl in h[1]]
+    lock = os.path.join(KANI_DIR, "Cargo.lock")
+    # the harness crate builds /repo's current working tree with the hooks on
+    try:
+        shutil.copyfile(os.path.join(build.REPO, "Cargo.lock"), lock)
+    except OSError:
+        pass
+    # one codegen-only pass first so that the parallel runs below share a warm target directory
+    t0 = time.time()
+    p = subprocess.run(["cargo", "kani", "-Z", "stubbing", "--only-codegen", "--target-dir", target_dir()], cwd=KANI_DIR, env=kani_env(),
+                       stdout=subprocess.PIPE, stderr=subprocess.STDOUT, text=True, timeout=1800)
+    t_build = time.time() - t0
+    if p.returncode != 0:
+        print("INCONCLUSIVE property=%s: the Kani harness crate does not build against /repo: %s" % (prop, p.stdout[-1500:]))
+        write_ev(here, prop, tier, seed, [], t_start, "build failed", [])
+        return 2
+
+    def one(h):
+        name, _, timeout, reject_ok, claim = h
+        rc, out, dt, to = run_harness(name, timeout)
+        r = parse(out)
+        r.update({"name": name, "claim": claim, "wall": dt, "timeout": to, "reject_ok": reject_ok, "rc": rc})
+        if not to and r["verdict"] is None:
+            r["raw_tail"] = out[-800:]
+        return r
+
+    with ThreadPoolExecutor(max_workers=8) as ex:
+        results = list(ex.map(one, hs))
+    violations, known, inconclusive = [], [], []
+    replay_bins = None
+    for r in results:
+        if r["timeout"]:
+            inconclusive.append("%s: timeout after %ds" % (r["name"], r["wall"]))
+            continue
+        if r["verdict"] is None:
+            inconclusive.append("%s: no verdict (%s)" % (r["name"], r.get("raw_tail", "")[-300:]))
+            continue
+        real_fails = []
+        for st, desc, loc in r["fails"]:
+            if any(desc.startswith(x) for x in IGNORED_DESCRIPTIONS):
+                continue
+            if r["reject_ok"] and REJECT in desc:
+                continue  # the documented rejection of a non-square flat size
+            real_fails.append((st, desc, loc))
+        r["real_fails"] = real_fails
+        if r["covers"] and r["covers"][0] < r["covers"][1] and not real_fails:
+            inconclusive.append("%s: vacuity witness not satisfied (%d of %d cover properties)" % (r["name"], r["covers"][0], r["covers"][1]))
+        if not real_fails:
+            continue
+        if any("unwinding assertion" in d for _, d, _ in real_fails):
+            inconclusive.append("%s: unwinding assertion failed (bound too small for this tree)" % r["name"])
+            continue
+        if any(st == "UNDETERMINED" for st, _, _ in real_fails) and not any(st == "FAILURE" for st, _, _ in real_fails):
+            inconclusive.append("%s: undetermined checks: %s" % (r["name"], real_fails[:2]))
+            continue
+        # counterexample -> concrete values -> native re-run in debug and release
+        if replay_bins is None:
+            try:
+                replay_bins = [build.build_replay()[0], build.build_replay(release=True)[0]]
+            except build.BuildError as e:
+                inconclusive.append("replay build failed: %s" % str(e)[:300])
+                replay_bins = []
+        tests = [t for t in playback_values(r["name"], 1200) if not (r["reject_ok"] and REJECT in t[0]) and not any(t[0].startswith(x) for x in IGNORED_DESCRIPTIONS)]
+        reproduced, outs = False, []
+        for desc, vals in tests[:4]:
+            for b in replay_bins:
+                cmd = [b, "--kani", r["name"]] + [str(v) for v in vals] + (["--reject-ok"] if r["reject_ok"] else [])
+                pr = subprocess.run(cmd, stdout=subprocess.PIPE, stderr=subprocess.STDOUT, text=True, timeout=120)
+                line = pr.stdout.strip().splitlines()[-1] if pr.stdout.strip() else "(no output)"
+                outs.append({"check": desc[:120], "values": vals, "cmd": " ".join(cmd), "native": line})
+                if "verdict=REPRODUCED" in line:
+                    reproduced = True
+        no_native = any("NO-NATIVE-COUNTERPART" in o["native"] for o in outs)
+        r["replays"] = outs
+        os.makedirs(os.path.join(build.WORK, "replay", prop), exist_ok=True)
+        rfile = os.path.join(build.WORK, "replay", prop, r["name"] + ".json")
+        with open(rfile, "w") as f:
+            json.dump({"engine": "kani", "property": prop, "harness": r["name"], "claim": r["claim"], "failed_checks": real_fails, "replays": outs}, f, indent=1)
+        role = real_fails[0][1][:60]
+        fnd = match_finding(findings, prop, r["name"], "kani", role)
+        if reproduced or (no_native and real_fails):
+            (known if fnd else violations).append((r, rfile, fnd))
+        else:
+            inconclusive.append("%s: Kani counterexample does not reproduce natively (%s)" % (r["name"], outs[:1]))
+    for r, rfile, fnd in known:
+        print("KNOWN-FINDING: property=%s %s [%s]" % (prop, fnd["what"], fnd["id"]))
+    for r, rfile, _ in violations:
+        print("VIOLATION property=%s replay=%s" % (prop, rfile))
+        print("  harness=%s failed checks: %s" % (r["name"], "; ".join("%s @ %s" % (d[:100], l[-80:]) for _, d, l in r["real_fails"][:3])))
+        for o in r.get("replays", [])[:2]:
+            print("  native: %s" % o["native"])
+    for m in inconclusive:
+        print("INCONCLUSIVE property=%s: %s" % (prop, m))
+    write_ev(here, prop, tier, seed, results, t_start, None, inconclusive, t_build, len(violations), len(known))
+    print("property=%s tier=%s harnesses=%d verified=%d known=%d violations=%d inconclusive=%d wall=%.1fs" % (
+        prop, tier, len(results), sum(1 for r in results if not r.get("real_fails") and r["verdict"]), len(known), len(violations), len(inconclusive), time.time() - t_start))
+    if violations:
+        return 1
+    if inconclusive:
+        return 2
+    return 0
+
+
+def write_ev(here, prop, tier, seed, results, t_start, why, inconclusive, t_build=0.0, nviol=0, nknown=0):
+    checks = sum((r.get("checks") or 0) for r in results)
+    ok = [r for r in results if r.get("verdict") and not r.get("real_fails")]
+    ev = {
+        "property_id": prop, "tier": tier, "seed": seed, "level": "other",
+        "coverage": {
+            "explanation": ("INCONCLUSIVE: " + why) if why else
+            "Kani 0.68 / CBMC 6.11 bounded model checking of the compiled /repo (feature verif, rebuilt this run): each harness makes the inputs "
+            "kani::any() within the stated ranges and the SAT solver decides every assertion, overflow, index and unwinding check for all values at once.",
+            "functions_encoded": sorted(set(["random::Generator::{create,generate,shuffle}", "tensor::Tensor::random"] if prop == "C18" else
+                                            ["Convolution::create", "Deconvolution::create", "Maxpool::create", "*::calculate_output_size"])),
+            "bounds": {r["name"]: r["claim"] for r in results},
+            "harnesses": len(results), "obligations": checks, "discharged": sum((r.get("checks") or 0) for r in ok),
+            "evaluations": len(results), "distinct_nontrivial": len(results),
+            "rule": "one evaluation = one proof harness (all inputs symbolic within its bound); obligations = CBMC checks (assertions, overflow, bounds, unwinding) across harnesses",
+            "stubs": sorted(set(s for r in results for s in (r.get("stubs") or []))),
+            "solver_seconds": round(sum((r.get("seconds") or 0) for r in results), 2),
+            "build_seconds": round(t_build, 1),
+            "samples": [{"harness": r["name"], "verdict": r.get("verdict"), "cbmc_checks": r.get("checks"), "seconds": r.get("seconds"), "covers": r.get("covers"),
+                         "failed": [d[:100] for _, d, _ in (r.get("real_fails") or [])][:3]} for r in results],
+            "checker_cmd": "cargo kani -Z stubbing --harness <name>",
+            "trusted_base": ["kani 0.68.0", "cbmc 6.11.0 (cadical)", "the stubs listed", "rustc (kani toolchain)"],
+            "inconclusive": inconclusive[:20],
+            "known_findings": nknown,
+        },
+        "assumptions": [
+            "Tensor::random is stubbed to allocate nothing in the C08 harnesses (cuts SystemTime::now and symbolic-size allocation); SystemTime::now is stubbed to an arbitrary instant in the Tensor::random harnesses",
+            "unwinding assertions stay on; Tensor/layer values are mem::forget-ed at the end of harnesses (drop glue is not part of the property)",
+            "the library's own rejection panic for a non-square flat size is the expected outcome in the c08_flat_accept_* harnesses",
+            "CBMC's optional float NaN checks are not panics in Rust and are ignored",
+        ],
+        "wall_s": round(time.time() - t_start, 2),
+        "violations": nviol,
+    }
+    os.makedirs(os.path.join(here, "evidence"), exist_ok=True)
+    with open(os.path.join(here, "evidence", prop + ".json"), "w") as f:
+        json.dump(ev, f, indent=1)
+
+
 def replay(j):
-    return 2
+    for o in j.get("replays", []):
+        print(o["cmd"])
+        p = subprocess.run(o["cmd"].split(" "), stdout=subprocess.PIPE, stderr=subprocess.STDOUT, text=True)
+        print(p.stdout.strip())
+        if "verdict=REPRODUCED" in p.stdout:
+            return 1
+    return 0
